@@ -1,5 +1,6 @@
 import MicroHttp.Props.C07
 import MicroHttp.Props.C08System
+import MicroHttp.Props.C10History
 #print axioms MicroHttp.C07.yielded_tokens
 #print axioms MicroHttp.C07.outstanding_token_identifies
 #print axioms MicroHttp.C07.respond_routes
@@ -10,3 +11,5 @@ import MicroHttp.Props.C08System
 #print axioms MicroHttp.C07.server_reply_to_own_input
 #print axioms MicroHttp.C08.received_is_own_queue
 #print axioms MicroHttp.C08.queue_is_answers_and_interims
+#print axioms MicroHttp.C10.history_inv
+#print axioms MicroHttp.C10.reachable
